@@ -475,7 +475,7 @@ def model_request(cfg, ops, tapes):
 
 
 # ------------------------------------------------------------------ one case end to end
-CLAIMED = ("i-oid", "i-path", "ii-oid", "ii-path", "iii", "iv-missing")     # C11_idx_partial
+CLAIMED = ("i-oid", "i-path", "ii-oid", "ii-path", "iii", "iv-missing")     # (i)-(iii): C11_idx_reachable inside the guards; reported everywhere
 REFUTED = ("iv-extra", "iv-forgotten")                                       # changeset_exact_refuted
 
 
@@ -683,7 +683,8 @@ def run(ctx):
     cov["traces_validated_against_impl"] = stats.get("steps", 0)
     tb = ["Coq 8.16.1 kernel (coqc); vm_compute used by the _refuted witnesses; no native_compute",
           "axioms per theorem as printed by Print Assumptions: " + (", ".join(cov.get("axioms_used", [])) or "none (closed under the global context)"),
-          "extraction: ExtrOcamlBasic only; OCaml 4.13.1; coq/ocaml/driver.ml",
+          "extraction: ExtrOcamlBasic only; OCaml 4.13.1; coq/ocaml/driver.ml (coq/bin/state = StateModel.run; coq/bin/stateguard = "
+          "StateGuardModel.run, the guard bits of C11_idx_reachable's hypothesis, C11_guard_trace_decides)",
           "PathModel (C13) for normalize_path_separators / is_subpath / join / dirname of the providers",
           "correspondence harness harness/checks/c11.py: generators, canonicalisation, virtual clock patched into "
           "cloudsync.sync.state.time, SyncEntry creation serials and serial-derived __hash__, recording (not altering) of the "
